@@ -9,7 +9,7 @@ HERE = os.path.dirname(os.path.abspath(__file__))
 CLAIMED = {
  "C01": dict(
   text="Structural necessary conditions of crash durability decided on every control-flow path of the anchored functions: fsync-before-acknowledge in the WAL, snapshot/compaction commit ordering (sync < rename < remove-old < dir-sync; WAL segments and cache snapshot released only after FileStore.Replace returned nil; a retried cache snapshot releases no WAL segment - found and fixed in fc11571), tombstone commit order, recovery order in Engine.Open, the WAL-tail typestate (append-mode reopen), and a frozen who-may-destroy table for shard files. A crash point is a position on a path, so an ordering that holds on all paths holds at every crash point; values replayed are not decided.",
-  note="Does not decide: that replay reproduces exactly the written values, torn-tail arithmetic, file-system semantics of fsync/rename. Trusts go/types resolution and the go/cfg graph; function anchors are resolved by name.",
+  note="Does not decide: that replay reproduces exactly the written values, torn-tail arithmetic, file-system semantics of fsync/rename. Trusts go/types resolution and the go/cfg graph; function anchors are resolved by name. One known finding (a write relying on a field that is in memory but in no saved fields.idx is acknowledged; lost for reads after a TSI restart) is listed in known_findings.json with a demonstration.",
   technique="static analysis: must-precede / error-outcome dataflow over go/cfg + typed AST, who-may-call table",
   ref="§4 C01"),
  "C04": dict(
